@@ -139,33 +139,107 @@ impl Collector {
     }
 }
 
-// ---------------------------------------------------------------- in-flight trace (abort attribution)
+// ---------------------------------------------------------------- in-flight trace (abort attribution) and watchdog
 
 static TRACE: Mutex<Option<std::fs::File>> = Mutex::new(None);
 static TRACE_SPACE: AtomicU64 = AtomicU64::new(0);
+const SLOT: usize = 512;
+const MAX_WORKERS: usize = 64;
+static STARTED_MS: [AtomicU64; MAX_WORKERS] = [const { AtomicU64::new(0) }; MAX_WORKERS];
+static DESCS: Mutex<Vec<String>> = Mutex::new(Vec::new());
+
+thread_local! {
+    static WORKER: std::cell::Cell<usize> = const { std::cell::Cell::new(0) };
+}
+
+fn now_ms() -> u64 {
+    static T0: std::sync::OnceLock<std::time::Instant> = std::sync::OnceLock::new();
+    T0.get_or_init(std::time::Instant::now).elapsed().as_millis() as u64 + 1
+}
 
 pub fn trace_open(path: &str) {
     if let Ok(f) = std::fs::OpenOptions::new().create(true).write(true).truncate(true).open(path) {
         *TRACE.lock().unwrap() = Some(f);
     }
+    let mut d = DESCS.lock().unwrap();
+    d.clear();
+    d.resize(MAX_WORKERS, String::new());
 }
 
 pub fn trace_space(idx: u64) {
     TRACE_SPACE.store(idx, Ordering::Relaxed);
 }
 
-/// records "worker t is starting case i of the current space" in a fixed slot (pwrite, no seek)
-pub fn trace_case(t: usize, i: usize) {
+/// called by the pool: worker t takes case i of the current loop
+pub fn trace_case(t: usize, _i: usize) {
+    WORKER.with(|w| w.set(t));
+}
+
+/// a subject case begins on this worker: remembered for the watchdog, written to the trace file
+/// (fixed slot, pwrite) so that the supervising parent can name the case if the process dies
+pub fn case_begin(desc: &str) {
     use std::os::unix::fs::FileExt;
-    static HAVE: std::sync::OnceLock<bool> = std::sync::OnceLock::new();
-    let have = *HAVE.get_or_init(|| TRACE.lock().unwrap().is_some());
-    if !have {
-        return;
+    let t = WORKER.with(|w| w.get()) % MAX_WORKERS;
+    let mut rec = format!("{}", desc);
+    rec.truncate(SLOT - 2);
+    {
+        let mut d = DESCS.lock().unwrap();
+        if d.len() == MAX_WORKERS {
+            d[t] = rec.clone();
+        }
     }
+    STARTED_MS[t].store(now_ms(), Ordering::Relaxed);
     if let Some(f) = TRACE.lock().unwrap().as_ref() {
-        let rec = format!("{:>6} {:>12}\n", TRACE_SPACE.load(Ordering::Relaxed), i);
-        let _ = f.write_at(rec.as_bytes(), (t * 20) as u64);
+        let mut buf = rec.into_bytes();
+        buf.resize(SLOT - 1, b' ');
+        buf.push(b'\n');
+        let _ = f.write_at(&buf, (t * SLOT) as u64);
     }
+}
+
+pub fn case_end() {
+    use std::os::unix::fs::FileExt;
+    let t = WORKER.with(|w| w.get()) % MAX_WORKERS;
+    STARTED_MS[t].store(0, Ordering::Relaxed);
+    if let Some(f) = TRACE.lock().unwrap().as_ref() {
+        let mut buf = vec![b' '; SLOT - 1];
+        buf.push(b'\n');
+        let _ = f.write_at(&buf, (t * SLOT) as u64);
+    }
+}
+
+/// the cases that were in flight according to a trace file (read by the supervisor)
+pub fn trace_read(path: &str) -> Vec<String> {
+    std::fs::read_to_string(path).unwrap_or_default().lines().map(|l| l.trim_matches(|c: char| c == '\0' || c.is_whitespace()).to_string()).filter(|l| !l.is_empty()).collect()
+}
+
+/// Watchdog: a subject case that runs longer than `limit_s` is reported as non-termination.
+/// For properties that promise termination (C10) this is a VIOLATION (exit 1); otherwise exit 2.
+pub fn start_watchdog(prop: String, verif_dir: String, limit_s: u64) {
+    std::thread::spawn(move || loop {
+        std::thread::sleep(std::time::Duration::from_millis(500));
+        let now = now_ms();
+        for t in 0..MAX_WORKERS {
+            let st = STARTED_MS[t].load(Ordering::Relaxed);
+            if st != 0 && now > st + limit_s * 1000 {
+                let desc = DESCS.lock().unwrap().get(t).cloned().unwrap_or_default();
+                let rdir = format!("{}/replays", verif_dir);
+                let _ = std::fs::create_dir_all(&rdir);
+                let path = format!("{}/{}-nontermination.json", rdir, prop);
+                let case: Value = serde_json::from_str(&desc).unwrap_or(json!({"description": desc}));
+                let rep = json!({"property": prop, "key": format!("{}/non-termination", prop), "what": format!("a case did not finish within {} s", limit_s), "case": case});
+                let _ = std::fs::write(&path, serde_json::to_string_pretty(&rep).unwrap() + "\n");
+                if prop == "C10" {
+                    println!("  {}/non-termination: a build did not finish within {} s: {}", prop, limit_s, desc);
+                    println!("VIOLATION property={} replay={}", prop, path);
+                    std::process::exit(1);
+                } else {
+                    eprintln!("MACHINERY: a subject case did not finish within {} s (see C10): {}", limit_s, desc);
+                    std::process::exit(2);
+                }
+            }
+        }
+    });
 }
 
 // ---------------------------------------------------------------- known findings
